@@ -330,12 +330,46 @@ struct CmpBudget {
     unsigned long long calls = 0;
     unsigned long long limit = ~0ull; // ~0: not armed
     unsigned long long worst_permille = 0; // largest calls*1000/limit seen over the armed operations of this case
+    // same idea for node allocations (BudgetAlloc): a copy / split / bulk-load loop that never ends allocates for ever
+    unsigned long long allocs = 0;
+    unsigned long long alloc_limit = ~0ull;
 };
 inline CmpBudget& cmp_budget() {
     static CmpBudget b;
     return b;
 }
-[[noreturn]] void cmp_runaway(); // C01_btree_history.cpp: pbt::fatal(".../runaway-operation", ...)
+[[noreturn]] void cmp_runaway();   // C01_btree_history.cpp: pbt::fatal(".../runaway-operation", ...)
+[[noreturn]] void alloc_runaway(); // ditto
+
+//! stateless allocator (all instances equal, memory from operator new) that counts node allocations against the
+//! per-operation budget
+template <class T>
+struct BudgetAlloc {
+    typedef T value_type;
+    typedef T* pointer;
+    typedef const T* const_pointer;
+    typedef T& reference;
+    typedef const T& const_reference;
+    typedef std::size_t size_type;
+    typedef std::ptrdiff_t difference_type;
+    template <class U>
+    struct rebind {
+        typedef BudgetAlloc<U> other;
+    };
+    BudgetAlloc() noexcept {}
+    template <class U>
+    BudgetAlloc(const BudgetAlloc<U>&) noexcept {}
+    T* allocate(std::size_t n, const void* = nullptr) {
+        CmpBudget& g = cmp_budget();
+        if (++g.allocs > g.alloc_limit) alloc_runaway();
+        return static_cast<T*>(::operator new(n * sizeof(T)));
+    }
+    void deallocate(T* p, std::size_t) noexcept { ::operator delete(p); }
+    template <class U>
+    bool operator==(const BudgetAlloc<U>&) const noexcept { return true; }
+    template <class U>
+    bool operator!=(const BudgetAlloc<U>&) const noexcept { return false; }
+};
 
 template <class Base>
 struct Counted : Base {
@@ -526,7 +560,8 @@ struct Cfg {
     typedef typename CT::template of<Key> BaseCmp;
     typedef typename std::conditional<CountCmp, Counted<BaseCmp>, BaseCmp>::type TCmp; // C01: call-counting wrapper (runaway bound)
     template <class T>
-    using Alloc = typename std::conditional<Counting, ArenaAllocator<T>, std::allocator<T> >::type; // stateful: one arena per container
+    using Alloc = typename std::conditional<Counting, ArenaAllocator<T>, // stateful: one arena per container
+                                            typename std::conditional<CountCmp, BudgetAlloc<T>, std::allocator<T> >::type>::type;
     typedef typename TreeOf<K, Key, Dat, TCmp, Traits<L, I, B>, Alloc>::type Tree;
     typedef typename Tree::value_type value_type;
 
